@@ -99,6 +99,14 @@ func (v *Voter) Verify(proposal *hotstuff.ProposeMsg) (err error) {
 	if blockView <= v.lastVotedView {
 		return fmt.Errorf("block view %d too old, last voted view was %d", blockView, v.lastVotedView)
 	}
+	// the block must directly extend the block certified by its quorum certificate
+	qc := proposal.Block.QuorumCert()
+	if proposal.Block.Parent() != qc.BlockHash() {
+		return fmt.Errorf("block parent %s is not the block certified by its quorum certificate", proposal.Block.Parent().SmallString())
+	}
+	if blockView <= qc.View() {
+		return fmt.Errorf("block view %d is not higher than the view %d of its quorum certificate", blockView, qc.View())
+	}
 	// vote rule must be valid
 	if !v.ruler.VoteRule(blockView, *proposal) {
 		return fmt.Errorf("vote rule not satisfied")
